@@ -173,9 +173,9 @@ def spaces(tier, seed):
                                 describe='7-letter words x the deviations that need longer signals (43-tap filter, boundary 12)',
                                 bounds={'letters': al3, 'option_sets': len(longs)}))
         shorts = [('b12',), ('b12', 'trough'), ('b12', 'amp'), ('b12', 'amp', 'trough')]
-        out.append(ProductSpace('W(4,5)xone-row', S.word_dims(S.alphabet(4), 5) + [shorts], Pipeline(min_peaks=2),
+        out.append(ProductSpace('W(4,5)xone-row', S.word_dims(S.alphabet(4), 5) + [shorts[:2] if tier == 'quick' else shorts], Pipeline(min_peaks=2),
                                 describe='5-letter words with boundary 12: recordings that hold exactly ONE or two complete cycles '
-                                         '(tables of one / two rows)', bounds={'letters': S.alphabet(4), 'option_sets': len(shorts)}))
+                                         '(tables of one / two rows)', bounds={'letters': S.alphabet(4), 'option_sets': 2 if tier == 'quick' else len(shorts)}))
         from bcmc.explore import ListSpace
         lv = [(), ('trough',), ('amp',), ('amp', 'trough'), ('b5',), ('nosamp',)]
         out.append(ListSpace('long-recordings', S.long_cases(['@A', '@B', '@C', '@D'] if tier == 'quick' else ['@A', '@B', '@C', '@D', '@E'], lv), ev,
